@@ -350,4 +350,77 @@ example : validate (fun k => k) Facts.C09.verifyThumbprintGuardsNilJwk Facts.C09
 example : validate (fun k => k) Facts.C09.verifyThumbprintGuardsNilJwk Facts.C09.networkValidators (wDoc [wKey] [wSvc "did:nuts:a#s1" "s1" "t", wSvc "did:nuts:a#s2" "s2" "t"])
     = .err "validate:svc:duplicate-type" := by decide
 
+/-! ### non-vacuity: concrete histories on the model instantiated with today's facts -/
+
+private def cfg0 : Cfg :=
+  { thumb := fun k => k, didThumb := fun k => "D" ++ k, maxDepth := Facts.C09.maxControllerDepth,
+    validators := Facts.C09.networkValidators, vmNilJwkErr := Facts.C09.verifyThumbprintGuardsNilJwk,
+    findKeyNilJwkErr := Facts.C09.findKeyGuardsNilJwk, store := cfgOf (fun _ l => l) Facts.C10.mergeSortedFields }
+
+private def vmOf (did k : String) : NVM := { id := did ++ "#" ++ k, pfx := did, frag := k, key := .key k }
+/-- a document of DID `D<k>` listing `keys` as verification methods and `ci` for capabilityInvocation -/
+private def docOf (k : String) (keys ci : List String) (ctrl : List String := []) : NDoc :=
+  { id := "did:nuts:D" ++ k, idID := "D" ++ k, controllers := ctrl,
+    vms := keys.map (vmOf ("did:nuts:D" ++ k)), capInv := ci.map (vmOf ("did:nuts:D" ++ k)) }
+private def createTx (ref : Nat) (k : String) (t : Nat := 10) : Tx :=
+  { ref := ref, clock := 0, sigTime := t, prevs := [], payloadHash := s!"p{ref}", embedded := some k, signer := k }
+private def updateTx (ref : Nat) (prevs : List Nat) (did k : String) (t : Nat := 20) : Tx :=
+  { ref := ref, clock := 1, sigTime := t, prevs := prevs, payloadHash := s!"p{ref}",
+    kid := { holder := did, id := did ++ "#" ++ k }, signer := k }
+
+/-- run a list of deliveries from the empty store; the outcome classes -/
+private def runAll (l : List (Tx × NDoc)) : List String :=
+  (l.foldl (fun (acc : Store × List String) p => let r := step cfg0 acc.1 p.1 (some p.2); (r.1, acc.2 ++ [r.2])) ({}, [])).2
+
+-- creation by the DID's own key, update by a listed key, update by a key the succeeded version no longer lists,
+-- update by a stranger's key, foreign-key creation
+example : runAll [
+    (createTx 100 "a", docOf "a" ["a", "b"] ["a", "b"]),
+    (updateTx 200 [100] "did:nuts:Da" "b", docOf "a" ["a", "b"] ["a"]),
+    (updateTx 300 [200] "did:nuts:Da" "b" 30, docOf "a" ["a", "b"] ["a", "b"]),
+    (createTx 400 "x", docOf "x" ["x"] ["x"]),
+    (updateTx 500 [200, 400] "did:nuts:Dx" "x" 30, docOf "a" ["a"] ["a"]),
+    (createTx 600 "z", docOf "y" ["y"] ["y"])]
+  = ["ok", "ok", "err:update:not-signed-by-controller", "ok", "err:update:not-signed-by-controller",
+     "err:create:thumbprint-mismatch"] := by decide
+
+-- a DID controlled by another DID: the controller's key authorises (prevs name both versions); after the controller
+-- is deactivated its key no longer authorises relative to the deactivating transaction — and (by design, see
+-- `accepted_update_sound`: authorisation is relative to the versions the prevs select) still does relative to the
+-- controller's older, active version
+example : runAll [
+    (createTx 100 "c", docOf "c" ["c"] ["c"]),
+    (createTx 110 "d", docOf "d" ["d"] ["d"] ["did:nuts:Dc"]),
+    (updateTx 200 [110, 100] "did:nuts:Dc" "c", docOf "d" ["d"] [] ["did:nuts:Dc"]),
+    (updateTx 210 [110] "did:nuts:Dd" "d", docOf "d" ["d"] ["d"] []),
+    (updateTx 300 [100] "did:nuts:Dc" "c" 30, docOf "c" [] []),
+    (updateTx 400 [200, 300] "did:nuts:Dc" "c" 40, docOf "d" ["d"] ["d"] ["did:nuts:Dc"]),
+    (updateTx 410 [200, 100] "did:nuts:Dc" "c" 40, docOf "d" ["d"] ["d"] ["did:nuts:Dc"])]
+  = ["ok", "ok", "ok", "err:sig:key:no-active-controller", "ok", "err:sig:key:not-found", "ok"] := by decide
+
+-- a controller cycle: the callback answers too-deep (never loops); with the verifier in front the key of a
+-- document whose controllers cannot be resolved under the same source transaction is not even resolvable
+private def cyc : Store :=
+  (step cfg0 (step cfg0 {} (createTx 100 "a") (some (docOf "a" ["a"] ["a"] ["did:nuts:Db"]))).1
+    (createTx 110 "b") (some (docOf "b" ["b"] ["b"] ["did:nuts:Da"]))).1
+example : (match callback cfg0 cyc (updateTx 200 [100, 110] "did:nuts:Db" "b") (some (docOf "a" ["a"] ["a"])) with
+    | .err e => e | _ => "") = "update:controllers:too-deep" := by decide
+example : (step cfg0 cyc (updateTx 200 [100, 110] "did:nuts:Db" "b") (some (docOf "a" ["a"] ["a"]))).2
+    = "err:sig:key:no-active-controller" := by decide
+
+-- the depth limit on an abstract resolver: a chain d1 <- d2 <- ... ; `dN` controls itself
+private def chainDoc (i : Nat) (root : Bool) : Doc :=
+  { id := s!"d{i}", f := fun
+      | .controller => if root then [] else [⟨s!"d{i+1}", "c"⟩]
+      | .capInv => [⟨s!"d{i}#k", "k"⟩]
+      | _ => [] }
+private def chainR (len : Nat) (id : String) : Res Doc :=
+  match (List.range (len + 1)).find? (fun i => s!"d{i}" == id) with
+  | some i => .ok (chainDoc i (i == len))
+  | none => .err eNotFound
+example : (resolveN (chainR 5) false Facts.C09.maxControllerDepth "d1").isOk = true := by decide
+example : (match resolveN (chainR 6) false Facts.C09.maxControllerDepth "d1" with | .err e => e | _ => "") = eTooDeep := by decide
+example : (ctrlsWith (fun r => resolveN (chainR 5) false Facts.C09.maxControllerDepth r) (chainDoc 0 false)).isOk = true := by decide
+
+
 end Nuts.C09.Props
